@@ -65,6 +65,10 @@ pub fn menu() -> Vec<Entry> {
     entry("name-leading-spaces", 28, Some("  USB Keyboard"), Some("/devices/platform/i/input/input28"), Some("120013"), Some(KB_KEYS)),
     entry("name-blanks-both-ends-and-tab", 29, Some(" \tOdd  Keyboard \t"), Some("/devices/platform/h/input/input29"), Some("120013"), Some(KB_KEYS)),
     entry("name-glob-chars", 27, Some("Key*board? [x]"), Some("/devices/platform/j/input/input27"), Some("120013"), Some(KB_KEYS)),
+    // devices none of whose keys lies in the typing block (codes 1..127): all-zero LOW words under populated high words
+    entry("button-box-32-buttons", 30, Some("Generic 32 Button Box"), Some("/devices/pci0000:00/0000:00:14.0/usb1/1-4/input/input30"), Some("1b"), Some("B: KEY=ffffffff00000000 0 0 0 0")),
+    entry("gamepad-high-words", 31, Some("Arcade Stick"), Some("/devices/pci0000:00/0000:00:14.0/usb1/1-5/input/input31"), Some("120013"), Some("B: KEY=ffff000000000000 ffffffff00000000 0 0 0 0")),
+    entry("consumer-control-above-127", 32, Some("Media Remote"), Some("/devices/platform/g/input/input32"), Some("120013"), Some("B: KEY=3ff 0 ffffffffffffffff 0 0")),
     entry("three-normal-keys", 23, Some("Button Box"), Some("/devices/platform/n/input/input23"), Some("120013"), Some("B: KEY=ffffff 0 0 0 10004002")),
   ]
 }
@@ -121,6 +125,19 @@ pub fn run(ctx: &Ctx) -> Outcome {
     if r1 != r2k { rep("two-discovery-paths-disagree", format!("entries {:?}: --all-keyboards path sees {:?}, --dev-file --only-if-keyboard path sees {:?}", seq.iter().map(|e| menu[*e].tag).collect::<Vec<_>>(), r1, r2k)); }
   }, |a, b| { a.n += b.n; a.nontrivial += b.nontrivial; for (k, v) in b.bad { match a.bad.get_mut(k) { None => { a.bad.insert(k, v); } Some(e) => { let c = e.0 + v.0; if (v.1.len(), &v.1) < (e.1.len(), &e.1) { *e = v; } e.0 = c; } } } });
   let mut evals = acc.n; let mut nontrivial = acc.nontrivial;
+  // semantic anchors, from the kernel's bitmap format alone (rightmost word = codes 0..63, next = 64..127, ...): an entry none
+  // of whose keys lies in the typing block (codes 1..127) is not a "real keyboard" under any heuristic; the plain AT and
+  // USB keyboards are.  What lies between is the heuristic's business and is not judged.
+  let mut anchor_fail: Vec<(String, String, Value, u64)> = vec![];
+  for (i, e) in menu.iter().enumerate() {
+    let key_line = e.text.lines().find(|l| l.starts_with("B: KEY=")).map(|l| &l["B: KEY=".len()..]);
+    let mut has_typing_key = false;
+    if let Some(kl) = key_line { for (w, tok) in kl.split(' ').rev().enumerate() { if w < 2 { if let Ok(v) = u64::from_str_radix(tok, 16) { if (if w == 0 { v & !1 } else { v }) != 0 { has_typing_key = true; } } } } }
+    let classified = !single[i].0.is_empty() || single[i].1.iter().any(|d| d.2);
+    evals += 1;
+    if !has_typing_key { nontrivial += 1; if classified { anchor_fail.push(("device-without-any-typing-key-counts-as-keyboard".into(), format!("entry {} has no key code in 1..127 ({:?}) but is classified as a keyboard: {:?} / {:?}", e.tag, key_line, single[i].0, single[i].1), json!({"engine": "C16", "tier": "in-process", "entries": [e.tag], "text": e.text}), 1)); } }
+    if (e.tag == "atkbd" || e.tag == "usbkbd") && (single[i].0.is_empty() || !single[i].1.iter().any(|d| d.2)) { anchor_fail.push(("plain-keyboard-not-recognised".into(), format!("entry {} (full AT key set, EV=120013) is not classified as a keyboard: {:?} / {:?}", e.tag, single[i].0, single[i].1), json!({"engine": "C16", "tier": "in-process", "entries": [e.tag], "text": e.text}), 1)); }
+  }
   // long device lists: the whole menu repeated (72+ entries), forwards and backwards
   let mut long_fail: Vec<(String, String, Value, u64)> = vec![];
   for rev in [false, true] { for reps in [1usize, 3, 10] {
@@ -134,6 +151,7 @@ pub fn run(ctx: &Ctx) -> Outcome {
   } }
   let mut fails: Vec<(String, String, Value, u64)> = acc.bad.into_iter().map(|(c, (n, seq, d))| (c.to_string(), d, json!({"engine": "C16", "tier": "in-process", "entries": seq.iter().map(|e| menu[*e].tag).collect::<Vec<_>>(), "text": seq.iter().map(|e| menu[*e].text.clone()).collect::<String>()}), n)).collect();
   fails.extend(long_fail);
+  fails.extend(anchor_fail);
   // exclusion flaggers against the independent glob matcher
   let names: Vec<String> = menu.iter().map(|e| e.name.unwrap_or("").to_string()).collect();
   let sets = exclude_sets(q);
@@ -173,7 +191,7 @@ pub fn run(ctx: &Ctx) -> Outcome {
   o.cov("exclusion_checks", excl_checks);
   o.cov("exclusion_checks_where_a_pattern_matches", excluded_hits);
   o.cov("exhaustive", true);
-  o.cov("rule", format!("in-process: every sequence of length 1..={} over {} device-list entries through both private extractors (independence: result = concatenation of the entries' own results; agreement of the two extractors); every (name, exclude set) pair over {} exclude sets from a 9-glob menu through both flaggers against an independent glob matcher. end-to-end: the real binary in a private mount namespace over fabricated /proc/bus/input/devices, /sys and /dev/input: list_keyboards, remap --all-keyboards --verbose, remap --dev-file <each node> --only-if-keyboard --verbose, with every exclude set. All cases are distinct by construction; non-trivial = sequences of >=2 entries, exclusion cases where a pattern matches, and every end-to-end case.", maxlen, k, sets.len()));
+  o.cov("rule", format!("in-process: every sequence of length 1..={} over {} device-list entries through both private extractors (independence: result = concatenation of the entries' own results; agreement of the two extractors; two anchors read off the kernel's bitmap format alone: an entry without any key code in 1..127 is never a keyboard, the plain AT/USB keyboards are); every (name, exclude set) pair over {} exclude sets from a 9-glob menu through both flaggers against an independent glob matcher. end-to-end: the real binary in a private mount namespace over fabricated /proc/bus/input/devices, /sys and /dev/input: list_keyboards, remap --all-keyboards --verbose, remap --dev-file <each node> --only-if-keyboard --verbose, with every exclude set. All cases are distinct by construction; non-trivial = sequences of >=2 entries, exclusion cases where a pattern matches, and every end-to-end case.", maxlen, k, sets.len()));
   o.cov("samples", json!([{"sequence": ["atkbd", "gaming-mouse"], "text": format!("{}{}", menu[0].text, menu[2].text), "keyboards": crate::keyboard_listing::verif_extract_keyboards(&format!("{}{}", menu[0].text, menu[2].text))}]));
   o.assumptions = vec!["device entries are modelled on the kernel's /proc/bus/input/devices format (every entry starts with its I: line)".into(), "the end-to-end tier observes the selection through the tool's own output: the fabricated nodes are regular files, so the run stops at the first open after printing what it selected".into()];
   let mut seen: BTreeSet<String> = BTreeSet::new();
